@@ -409,8 +409,12 @@ class Ctx:
         ev["coverage"]["known_findings_reported"] = self.known_lines
         ev["coverage"]["notes"] = self.notes
         ev["coverage"]["violation_classes"] = self._vclass
-        os.makedirs(os.path.join(VERIF, "evidence"), exist_ok=True)
-        json.dump(ev, open(os.path.join(VERIF, "evidence", "%s.json" % self.id), "w"), indent=1, default=str)
+        # Evidence under /verif/evidence must come from a run against /repo itself; runs against another tree
+        # (seed verification, mutation sanity: VERIF_REPO=<worktree>) or replays write to .work/evidence-alt instead.
+        official = os.path.realpath(self.repo) == "/repo" and not self.replay
+        evdir = os.path.join(VERIF, "evidence") if official else os.path.join(VERIF, ".work", "evidence-alt")
+        os.makedirs(evdir, exist_ok=True)
+        json.dump(ev, open(os.path.join(evdir, "%s.json" % self.id), "w"), indent=1, default=str)
         if not self.violations and not self.keep_work:
             shutil.rmtree(self.work, ignore_errors=True)
         elif self.violations:
